@@ -3,7 +3,8 @@
 import json, os, subprocess
 HERE = os.path.dirname(os.path.abspath(__file__))
 claims = json.load(open(os.path.join(HERE, "claims.json")))
-hooks_commits = claims["hooks"]["source_commits"]
+hooks_commits = subprocess.run(["git", "-C", "/repo", "log", "--reverse", "--format=%h", "--grep=^verif hook"], capture_output=True, text=True).stdout.split() or claims["hooks"]["source_commits"]
+fix_commits = subprocess.run(["git", "-C", "/repo", "log", "--reverse", "--format=%h %s", "--grep=^fix:"], capture_output=True, text=True).stdout.strip().splitlines()
 m = {
     "version": 1,
     "setup_cmd": "python3 /verif/setup.py",
@@ -14,9 +15,9 @@ m = {
         "source_commits": hooks_commits,
         "add_only": True,
     },
-    "engines": claims["engines"],
+    "engines": [dict(e, serves_properties=sorted(c["property_id"] for c in claims["checks"] if e["name"] in c["engine"])) for e in claims["engines"]],
     "checks": [],
-    "notes": claims.get("notes", ""),
+    "notes": claims.get("notes", "") + " | fix: commits in /repo (genuine defects repaired, see KNOWN_FINDINGS.txt): " + "; ".join(fix_commits),
     "not_applicable": claims["not_applicable"],
 }
 for c in claims["checks"]:
